@@ -29,7 +29,9 @@ RULE = (
     "cases = (list of 1-5 source files, rdump argv).  Sources hold generated records of two families: A = the selector "
     "pool shapes (every whitelisted field type, nested records, heterogeneous shapes) and B = generated descriptors over "
     "the JSON-representable field types with boundary/hostile values, same-name descriptors and timestamp fields; each "
-    "source is good (plain / gzip / bzip2), missing, empty, garbage, a plain stream truncated at a random byte, or damaged in the "
+    "source is good (plain / gzip / bzip2 / lz4 / zstd, named by its codec's extension), a compressed stream under a name that does "
+    "not reveal the codec (evidenceN.records, dumpN.bin, no extension), two or three complete streams appended in one file "
+    "(plain, multi-member gzip / bzip2, or compressed as a whole), missing, empty, garbage, a plain stream truncated at a random byte, or damaged in the "
     "middle (gzip / bzip2 file with 1-3 inverted bytes, biased to damage the decompressor notices mid-stream; plain stream "
     "with a lying length prefix, an invalid first body byte, a foreign extension type or an unknown frame sub-type).  "
     "Enumerated part (identical for every seed, fault enumeration): every placement of {good, missing, empty, garbage, "
@@ -39,7 +41,8 @@ RULE = (
     "the output must agree with one of these candidate expectations; every other source contributes exactly its intact prefix.  "
     "Dedicated cases run one argv with --multi-timestamp and a -F/-X that removes a timestamp field through -w stream and the "
     "stdout modes csv / line / line-verbose / json / jsonlines and demand the model's records (projection before expansion) in "
-    "every mode.  Seeded part: random placements x options --skip 0..N+1, "
+    "every mode.  Neutral-name and concatenated sources are also placed at every position among 1-3 (1-4) good sources and "
+    "next to bad ones: they contribute all records of all parts in order and nothing else (a mid-stream header frame is not a record).  Seeded part: random placements x options --skip 0..N+1, "
     "-c 1..N+1, -s (generated must-support expressions for A, equality/helper templates for B) with and without -n, -F, -X "
     "(unknown, reserved and repeated names included), --record-source, --record-classification, --multi-timestamp, --split "
     "with --suffix-length, -w writers stream (plain/gz) / jsonfile / csvfile / line / text run in-process through "
@@ -56,7 +59,8 @@ ASSUMPTIONS = [
     "a name repeated in -F is not generated (the rewriter then builds a descriptor that lists the field twice, which is outside the descriptor grammar)",
     "truncated sources are plain streams cut at a random byte; compressed sources are whole, empty, garbage or damaged by inverted bytes - for the "
     "latter any prefix of the decodable records is accepted (the exact compressed-prefix semantics is C04's subject); a damage whose decompressed bytes "
-    "decode to records other than the ones written (undetectable corruption) is skipped and counted; lz4 / zstd sources are not generated",
+    "decode to records other than the ones written (undetectable corruption) is skipped and counted; lz4 / zstd sources are whole single-frame files only "
+    "(no damaged, truncated or multi-frame lz4 / zstd sources)",
     "a plain stream whose LAST frame carries a too-long length prefix (all its bytes present) is not generated: whether that frame counts as complete is C04's subject",
     "inputs avoid the value classes owned by C01 known findings (IPv6 below 2**32, scoped addresses, dynamic holding a path); a case whose "
     "source bytes do not decode (independent codec) to the records written is skipped and counted",
@@ -158,6 +162,16 @@ def damage_placements(maxn):
             out.append(([bad, k, "good"], 0))
     for a in DMG:
         out.append(([a, "dmg-gz", "good"], 1))
+    # sources whose name does not reveal their codec / concatenated streams, at every position among good ones
+    for n in range(1, maxn + 1):
+        for k in ("neutral", "concat"):
+            for pos in range(n):
+                for rep in range(4):
+                    out.append((["good"] * pos + [k] + ["good"] * (n - pos - 1), rep))
+    for bad in ("missing", "garbage", "trunc", "dmg-gz"):
+        for k in ("neutral", "concat"):
+            out.append(([bad, k, "good"], 0))
+            out.append(([k, bad, k], 1))
     return out
 
 
@@ -374,10 +388,52 @@ def damage_plain(rng, data, kind):
 
 
 
+def compress(data, comp):
+    if comp == ".gz":
+        return gzip.compress(data)
+    if comp == ".bz2":
+        return bz2.compress(data)
+    if comp == ".lz4":
+        import lz4.frame
+
+        return lz4.frame.compress(data)
+    if comp == ".zst":
+        import zstandard
+
+        return zstandard.ZstdCompressor().compress(data)
+    return data
+
+
+NEUTRAL_NAMES = ("evidence%d.records", "dump%d.bin", "src%d", "s%d.records.dat")
+
+
 def make_source(rng, kind, index, draw, dirpath):
-    comp = rng.choice(["", "", ".gz", ".bz2"]) if kind in ("good", "empty", "garbage", "missing") else ""
+    comp = rng.choice(["", "", ".gz", ".bz2", ".lz4", ".zst"]) if kind in ("good", "empty", "garbage", "missing") else ""
     path = os.path.join(dirpath, "s%d.records%s" % (index, comp))
     records, data, cut = [], b"", None
+    if kind == "neutral":
+        # a compressed record stream under a name that does not reveal the codec (rdump -w - | gzip > evidence.records)
+        comp = rng.choice([".gz", ".bz2", ".lz4", ".zst"])
+        path = os.path.join(dirpath, rng.choice(NEUTRAL_NAMES) % index)
+        records = canonical(draw(rng.choice([1, 2, 3, 4, 6])))
+        data = stream_bytes(records)
+        with open(path, "wb") as f:
+            f.write(compress(data, comp))
+        return Source(kind, path, comp + "(neutral name)", records, data, None)
+    if kind == "concat":
+        # two or three complete record streams appended (cat a.records b.records; a multi-member gzip / bzip2 built
+        # the same way; a file a second writer appended to): the records of all parts in order and nothing else
+        comp = rng.choice(["", "", ".gz", ".bz2"])
+        neutral = comp != "" and rng.random() < 0.3
+        path = os.path.join(dirpath, (rng.choice(NEUTRAL_NAMES) % index) if neutral else "s%d.records%s" % (index, comp))
+        parts = [canonical(draw(rng.choice([0, 1, 2, 3]))) for _ in range(rng.choice([2, 2, 3]))]
+        records = [r for p in parts for r in p]
+        chunks = [stream_bytes(p) for p in parts]
+        data = b"".join(chunks)
+        whole_file = rng.random() < 0.3
+        with open(path, "wb") as f:
+            f.write(compress(data, comp) if whole_file else b"".join(compress(c, comp) for c in chunks))
+        return Source(kind, path, comp or "plain", records, data, None)
     if kind in ("good", "trunc"):
         records = canonical(draw(rng.choice([0, 1, 2, 3, 4, 6, 9]) if kind == "good" else rng.choice([1, 2, 3, 5, 8])))
         data = stream_bytes(records)
@@ -385,13 +441,8 @@ def make_source(rng, kind, index, draw, dirpath):
             cut = rng.choice([rng.randrange(len(data) + 1), rng.randrange(len(data) + 1), len(data), 0, 15, 19])
             cut = min(cut, len(data))
             data = data[:cut]
-        raw = data
-        if comp == ".gz":
-            raw = gzip.compress(data)
-        elif comp == ".bz2":
-            raw = bz2.compress(data)
         with open(path, "wb") as f:
-            f.write(raw)
+            f.write(compress(data, comp))
     elif kind in DMG:
         records = canonical(draw(rng.choice([1, 2, 3, 4])))
         whole = stream_bytes(records)
@@ -445,7 +496,7 @@ def make_source(rng, kind, index, draw, dirpath):
 
 def source_entries(ctx, src):
     """Entries a source contributes according to the reference; None when the bytes do not decode to the written records."""
-    if src.kind not in ("good", "trunc") + DMG:
+    if src.kind not in ("good", "trunc", "neutral", "concat") + DMG:
         return []
     if getattr(src, "altered", False):
         ctx.event("skipped:damage_alters_bytes_unnoticed_by_the_codec")
@@ -463,7 +514,7 @@ def source_entries(ctx, src):
         if observe.normalise(o) != want:
             return None
         out.append(M.Entry(want, r, {k: getattr(r, k) for k in r.__slots__}))
-    if src.kind == "good" and len(decoded) != len(src.records):
+    if src.kind in ("good", "neutral", "concat") and len(decoded) != len(src.records):
         return None
     return out
 
@@ -863,13 +914,13 @@ def _execute(ctx, case, d):
     if kind == "mtx":
         pattern = ["good"] * rng.choice([1, 2])
     else:
-        pool = ["good"] * 6 + ["missing", "garbage", "empty", "trunc", "trunc"] + list(DMG)
+        pool = ["good"] * 6 + ["neutral", "neutral", "concat", "concat", "concat"] + ["missing", "garbage", "empty", "trunc", "trunc"] + list(DMG)
         pattern = case.get("pattern") or [rng.choice(pool) for _ in range(rng.randint(1, 5))]
         while sum(1 for k in pattern if k in DMG_COMP) > 2:
             pattern[[i for i, k in enumerate(pattern) if k in DMG_COMP][-1]] = "good"
     use_stdin = kind == "sub" and rng.random() < 0.25
     if use_stdin:
-        pattern = [rng.choice(["good", "good", "trunc"])]
+        pattern = [rng.choice(["good", "good", "trunc", "concat"])]
     sources = [make_source(rng, k, i, draw, d) for i, k in enumerate(pattern)]
     per_source = [source_entries(ctx, s) for s in sources]
     if any(e is None for e in per_source):
@@ -911,6 +962,8 @@ def _execute(ctx, case, d):
     for s in sources:
         if s.kind in DMG:
             ctx.event("damaged_source:" + s.kind)
+        elif s.kind in ("neutral", "concat"):
+            ctx.event("source_kind:" + s.kind)
     argv_src = [s.path for s in sources]
     detail = {"argv": None, "sources": [(s.kind, s.comp, len(s.records), s.cut) for s in sources], "options": opts, "family": fam}
     if kind == "sub":
@@ -1095,6 +1148,7 @@ def finish(ctx):
     ctx.require(ev.get("cases_compared", 0) > 0, "no case reached the comparison")
     ctx.require(ev.get("cases_with_output", 0) > 0, "no case had a non-empty expected output")
     ctx.require(sum(v for k, v in ev.items() if k.startswith("damaged_source:")) > 0, "no source damaged mid-stream was generated")
+    ctx.require(ev.get("source_kind:neutral", 0) > 0 and ev.get("source_kind:concat", 0) > 0, "no neutral-name / concatenated source was generated")
     ctx.require(ev.get("mtx_cases", 0) == 0 or ev.get("mtx_all_modes_same_record_count", 0) > 0, "no --multi-timestamp x projection case was compared in every output mode")
     skipped = sum(v for k, v in ev.items() if k.startswith("skipped:"))
     ctx.require(skipped <= 3 * max(ev.get("cases_compared", 0), 1), "more than 3/4 of the generated cases were skipped (undefined selector / input class)")
